@@ -24,7 +24,10 @@ EXHAUSTIVE_CORE = "every 11-bit CAN id through the scanner and through send_mess
 ASSUMPTIONS = [
     "frames on ids that a library handler parses are generated well-formed (EMCY 8 bytes, heartbeat >= 1 byte, NMT command 2 bytes, SDO 8 bytes); "
     "a malformed protocol frame makes that handler raise, which MessageListener logs by design - recorded as an observation, not judged",
-    "unsubscribe of something that is not subscribed is not generated; unsubscribe-all is not used on ids that carry a live node's handlers",
+    "unsubscribe of something that is not subscribed is not generated; the general unsubscribe-all operation is not used on ids that carry a live node's handlers",
+    "a separate operation unsubscribes everything on ONE service id of a live node: that node's handler then no longer receives on that id; removing or replacing "
+    "such a node makes the library raise KeyError/ValueError half-way through (its own unsubscribe fails) - a removal that did not complete is not judged further "
+    "(the node id is left alone for the rest of the run); a removal that completes without error is judged like any other",
 ]
 COMPONENTS = {
     "real": ["canopen.Network (subscribe/unsubscribe/notify/send_message/send_periodic/__setitem__/__delitem__)", "canopen.network.MessageListener",
